@@ -177,6 +177,26 @@ def run_case(item):
             out = Expr(Add(*[p.sympy for p in parts]), target_idx=T)
             res["n_parts"] = len(parts)
         elif op == "diag_fock":
+            if rng.random() < 0.4:
+                # a chain of Fock elements with intersecting indices: f_xm f_mn [f_ny] c(...)
+                from adcgen.indices import get_symbols
+                from adcgen.sympy_objects import AntiSymmetricTensor, NonSymmetricTensor
+                sp = rng.choice(["o", "v"])
+                used = {s.name for s in idx}
+                fresh = [n for n in POOL[sp] if n not in used][:4]
+                k = rng.choice([2, 2, 3])
+                if len(fresh) > k:
+                    ch = get_symbols(fresh[:k + 1])
+                    chain = S.One
+                    for q in range(k):
+                        a_, b_ = (ch[q], ch[q + 1]) if rng.random() < 0.5 else (ch[q + 1], ch[q])
+                        chain *= AntiSymmetricTensor("f", (a_,), (b_,))
+                    if rng.random() < 0.5:
+                        chain *= NonSymmetricTensor("c", (ch[0], ch[-1]))      # closed: all contracted
+                    else:
+                        chain *= NonSymmetricTensor("c", (ch[-1],))           # open: ch[0] is a target
+                        T = T + [ch[0]]
+                    rem = rem * chain
             e = Expr(rem * rng.choice([1, Rational(1, 2)]), target_idx=T)
             res["in"] = str(e)
             out = e.copy().diagonalize_fock()
